@@ -68,6 +68,8 @@ impl<T, E> Observer<T, E> for ObservableStreamObserver<T, E> {
       .sender
       .unbounded_send(Message::Item(Ok(value)))
       .expect("failed to send value to stream");
+    #[cfg(feature = "verif_hooks")]
+    crate::verif_hooks::sched_point();
   }
 
   fn error(self, err: E) {
@@ -80,6 +82,8 @@ impl<T, E> Observer<T, E> for ObservableStreamObserver<T, E> {
   }
 
   fn complete(self) {
+    #[cfg(feature = "verif_hooks")]
+    crate::verif_hooks::sched_point();
     self
       .sender
       .unbounded_send(Message::Complete)
